@@ -305,7 +305,7 @@ type encCase struct {
 	// Encode only: the case clamps low bytes to a constant (`if q < K { q = K }`)
 	clamp    bool
 	clampPos token.Pos
-	why       string
+	why      string
 }
 
 // encSwitch finds the switch over an alphabet.Encoding value in fd and
